@@ -42,6 +42,7 @@ RULE = ("texts of 1-5 blocks drawn from a grammar of line kinds (decl, use, "
         "(Reader/Writer round trips of test sources, generated PSy/alg "
         "layers) x limit; non-trivial = at least one physical line longer "
         "than the limit and the limiter returned (wrapping happened); "
+        "every generated text is evaluated at 4 distinct limits; "
         "distinct = (text, limit)")
 ASSUMPTIONS = [
     "vlib.free_form_join implements the Fortran 2008 free-form continuation "
@@ -55,7 +56,12 @@ ASSUMPTIONS = [
     "the limit are outside 'text it is asked to wrap' (counted as class "
     "unbreakable, exception tolerated)",
     "OpenMP conditional-compilation lines ('!$ ') and sentinels glued to "
-    "text ('!$ompx') are not generated",
+    "text ('!$ompx') are not generated; character literals are not "
+    "generated inside directives",
+    "known-finding attribution re-runs the limiter on a repaired copy of "
+    "the failing input (comment dropped / indentation dropped / optional "
+    "'&' added / line pre-wrapped); a case is excluded only if the repaired "
+    "copy satisfies every oracle",
 ]
 MIN_NONTRIVIAL = 50
 NLIMITS = 4          # every generated text is wrapped at this many limits
@@ -117,9 +123,11 @@ def wrappable(fll, line, limit):
 
 def _ast_str(text):
     from fparser.common.readfortran import FortranStringReader
+    from fparser.common.sourceinfo import FortranFormat
     from fparser.two.parser import ParserFactory
     parser = ParserFactory().create(std="f2008")
     reader = FortranStringReader(text, ignore_comments=True)
+    reader.set_format(FortranFormat(True, False))      # free form, always
     return str(parser(reader))
 
 
